@@ -11,6 +11,7 @@ use serde_json::{Value, json};
 use crate::common::*;
 use crate::hostsim::{self, SchedMode, WorldObs};
 use crate::pipeline;
+use crate::realos;
 use crate::rng::{Rng, fnv};
 
 pub struct C15;
@@ -440,6 +441,9 @@ impl Engine for C15 {
     }
 
     fn generate(&self, seed: u64, i: u64, _tier: Tier) -> Value {
+        if i % 50 == 49 {
+            return gen_real(&mut Rng::stream(seed, self.tag() ^ 0x4ea1, i));
+        }
         // two schedules per scenario
         let mut r = Rng::stream(seed, self.tag(), i / 2);
         let nvars = r.usize(1, 3);
@@ -507,6 +511,9 @@ impl Engine for C15 {
     }
 
     fn execute(&self, case: &Value) -> RunResult {
+        if case["kind"] == "real" {
+            return exec_real(case);
+        }
         let mut res = RunResult::new();
         let (src, exp) = build(case);
         let sched = SchedMode::from_json(&case["sched"]);
@@ -671,6 +678,23 @@ impl Engine for C15 {
             c[k] = x;
             c
         };
+        if case["kind"] == "real" {
+            for key in ["args", "env"] {
+                let a = case[key].as_array().unwrap();
+                for i in 0..a.len() {
+                    let mut b = a.clone();
+                    b.remove(i);
+                    v.push(set(key, json!(b)));
+                }
+            }
+            if !case["cwd"].is_null() {
+                v.push(set("cwd", Value::Null));
+            }
+            if case["stdin"] != "null" {
+                v.push(set("stdin", json!("null")));
+            }
+            return v;
+        }
         let steps = case["steps"].as_array().unwrap();
         for i in (0..steps.len()).rev() {
             let mut s = steps.clone();
@@ -735,6 +759,9 @@ impl Engine for C15 {
     }
 
     fn sample(&self, case: &Value) -> Value {
+        if case["kind"] == "real" {
+            return case.clone();
+        }
         let (src, _) = build(case);
         json!({"allow": case["allow"], "caps": case["caps"], "spawn_errors": case["spawn_errors"], "script": src})
     }
@@ -806,4 +833,169 @@ fn well_formed(steps: &[Value], slots: usize) -> bool {
         }
     }
     steps.iter().any(|s| s["s"] == "run")
+}
+
+// ------------------------------------------------------------------ real operating system
+
+fn real_word(r: &mut Rng, maxlen: u64) -> String {
+    // no NUL here: refusals are generated on purpose below
+    loop {
+        let w = word(r, maxlen);
+        if !w.contains('\0') {
+            return w;
+        }
+    }
+}
+
+fn gen_real(r: &mut Rng) -> Value {
+    let nargs = r.usize(0, 5);
+    let args: Vec<String> = (0..nargs).map(|_| real_word(r, 4)).collect();
+    let nenv = r.usize(0, 4);
+    let env: Vec<Value> = (0..nenv)
+        .map(|_| {
+            let k = format!("VK_{}", r.pick(&["A", "B", "A", "long_key_name"]));
+            json!([k, real_word(r, 4)])
+        })
+        .collect();
+    // directory names that a shell would mangle
+    let cwd = if r.chance(50) { json!(r.pick(&["plain", "with space", "qu\"ote", "$HOME", "star*", "semi;colon", "日本", "a\\b", "-dash"])) } else { Value::Null };
+    let stdin = match r.below(3) {
+        0 => json!("null"),
+        _ => json!({"text": real_word(r, 6)}),
+    };
+    // sometimes a configuration that must be refused before anything is spawned
+    let refuse = match r.below(8) {
+        0 => "nul-arg",
+        1 => "eq-key",
+        2 => "empty-cwd",
+        3 => "timeout-zero",
+        _ => "",
+    };
+    json!({"kind": "real", "args": args, "env": env, "cwd": cwd, "stdin": stdin, "refuse": refuse, "computed": r.chance(40)})
+}
+
+/// The un-hooked `naija` binary runs the builder script against the real OS; the real helper
+/// child reports what it received.
+fn exec_real(case: &Value) -> RunResult {
+    let mut res = RunResult::new();
+    res.trace_hash = fnv(0, &serde_json::to_vec(case).unwrap());
+    res.nontrivial = true;
+    res.count("real_os_cross_checks", 1);
+    let helper = match realos::realchild_bin() {
+        Ok(h) => h,
+        Err(m) => return res.violation("harness", m),
+    };
+    let computed = case["computed"].as_bool().unwrap_or(false);
+    let dir = realos::tmp_dir();
+    let marker = format!("{dir}/spawned.marker");
+    let _ = std::fs::remove_file(&marker);
+    let lit = |s: &str| val_lit(&json!(s), computed);
+    let mut src = format!("make c get command({})\nc.arg(\"report\")\n", strlit(&helper));
+    let args: Vec<String> = case["args"].as_array().unwrap().iter().map(|a| a.as_str().unwrap().to_string()).collect();
+    for a in &args {
+        src += &format!("c.arg({})\n", lit(a));
+    }
+    let mut envm: BTreeMap<String, String> = BTreeMap::new();
+    src += &format!("c.env(\"VK_MARKER\", {})\n", strlit(&marker));
+    envm.insert("VK_MARKER".into(), marker.clone());
+    for e in case["env"].as_array().unwrap() {
+        let (k, v) = (e[0].as_str().unwrap(), e[1].as_str().unwrap());
+        src += &format!("c.env({}, {})\n", lit(k), lit(v));
+        envm.insert(k.to_string(), v.to_string());
+    }
+    let mut cwd_path: Option<String> = None;
+    if let Some(name) = case["cwd"].as_str() {
+        let p = format!("{dir}/{name}");
+        if std::fs::create_dir_all(&p).is_err() {
+            res.verdict = Verdict::Discard("cannot-create-cwd".into());
+            return res;
+        }
+        src += &format!("c.cwd({})\n", lit(&p));
+        cwd_path = Some(p);
+    }
+    let mut stdin_text: Option<String> = None;
+    match &case["stdin"] {
+        Value::String(_) => src += "c.stdin_null()\n",
+        o => {
+            let t = o["text"].as_str().unwrap_or("").to_string();
+            src += &format!("c.stdin_text({})\n", lit(&t));
+            stdin_text = Some(t);
+        }
+    }
+    let refuse = case["refuse"].as_str().unwrap_or("");
+    match refuse {
+        "nul-arg" => src += "c.arg(\"a\0b\")\n",
+        "eq-key" => src += "c.env(\"VK=X\", \"v\")\n",
+        "empty-cwd" => src += "c.cwd(\"\")\n",
+        "timeout-zero" => src += "c.timeout_ms(0)\n",
+        _ => {}
+    }
+    src += "c.stdout_capture()\nmake r get c.run()\nshout(r.exit_code())\nshout(r.stdout())\n";
+    let run = match realos::run_naija(&src, None) {
+        Ok(r) => r,
+        Err(m) => return res.violation("harness", m),
+    };
+    let out = String::from_utf8_lossy(&run.stdout).into_owned();
+    res.detail = json!({"script": src});
+    let spawned = std::path::Path::new(&marker).exists();
+    if !refuse.is_empty() {
+        res.count("real_refusals", 1);
+        if spawned {
+            return res.violation("spawned-although-refused", format!("real OS: the helper ran although the command must be refused ({refuse})"));
+        }
+        if run.code == 0 || !out.contains("Invalid process configuration") {
+            return res.violation("not-refused", format!("real OS: expected `Invalid process configuration` ({refuse}), naija exited {} with {:?}", run.code, out.chars().take(200).collect::<String>()));
+        }
+        return res;
+    }
+    res.count("real_spawns", 1);
+    if run.code != 0 {
+        return res.violation("unexpected-error", format!("real OS: naija exited {} : {:?} / {:?}", run.code, out.chars().take(300).collect::<String>(), String::from_utf8_lossy(&run.stderr).chars().take(200).collect::<String>()));
+    }
+    // the helper touches the marker itself? no: it only reports; the marker proves env delivery
+    let mut lines = out.lines();
+    if lines.next() != Some("0") {
+        return res.violation("wrong-exit-code", format!("real OS: helper exit code printed as {:?}", out.lines().next()));
+    }
+    let mut got_args: Vec<Vec<u8>> = vec![];
+    let mut got_env: BTreeMap<String, String> = BTreeMap::new();
+    let mut got_cwd: Option<Vec<u8>> = None;
+    let mut got_stdin: Option<Vec<u8>> = None;
+    let mut complete = false;
+    for l in lines {
+        let mut it = l.split(' ');
+        match it.next() {
+            Some("arg") => got_args.push(realos::unhex(it.next().unwrap_or(""))),
+            Some("env") => {
+                let k = String::from_utf8_lossy(&realos::unhex(it.next().unwrap_or(""))).into_owned();
+                let v = String::from_utf8_lossy(&realos::unhex(it.next().unwrap_or(""))).into_owned();
+                got_env.insert(k, v);
+            }
+            Some("cwd") => got_cwd = Some(realos::unhex(it.next().unwrap_or(""))),
+            Some("stdin") => got_stdin = Some(realos::unhex(it.next().unwrap_or(""))),
+            Some("end") => complete = true,
+            _ => {}
+        }
+    }
+    if !complete {
+        return res.violation("harness", format!("real OS: helper report incomplete: {:?}", out.chars().take(300).collect::<String>()));
+    }
+    let want_args: Vec<Vec<u8>> = args.iter().map(|a| a.as_bytes().to_vec()).collect();
+    if got_args != want_args {
+        let show = |v: &Vec<Vec<u8>>| v.iter().map(|a| String::from_utf8_lossy(a).into_owned()).collect::<Vec<_>>();
+        return res.violation("wrong-argv", format!("real OS: child received argv {:?}, expected {:?}", show(&got_args), show(&want_args)));
+    }
+    if got_env != envm {
+        return res.violation("wrong-env", format!("real OS: child sees VK_* environment {got_env:?}, expected {envm:?}"));
+    }
+    if let Some(p) = &cwd_path
+        && got_cwd.as_deref() != Some(p.as_bytes())
+    {
+        return res.violation("wrong-cwd", format!("real OS: child cwd {:?}, expected {p:?}", got_cwd.map(|c| String::from_utf8_lossy(&c).into_owned())));
+    }
+    let want_stdin = stdin_text.unwrap_or_default();
+    if got_stdin.as_deref() != Some(want_stdin.as_bytes()) {
+        return res.violation("wrong-stdin", format!("real OS: child read {:?} from stdin, expected {want_stdin:?}", got_stdin.map(|c| String::from_utf8_lossy(&c).into_owned())));
+    }
+    res
 }
